@@ -762,6 +762,9 @@ where
             _ => SessionStopReason::Ended,
         };
         self.session.set_session_stop_reason(session_stop_reason);
+        // The unsettled maps are shared with the links and outlive the relays: a send that
+        // still waits for its outcome would wait for ever
+        self.session.abandon_pending_deliveries();
         let _ =
             connection::deallocate_session(&mut self.conn_control, self.session.outgoing_channel())
                 .await;
